@@ -30,8 +30,14 @@ def _watchdog(tier):
         print("INTERNAL-ERROR time budget exceeded (exit 2; not a verdict)", flush=True)
         os._exit(2)
 
+    limit = int(os.environ.get("VERIF_TIMEOUT", "1500" if tier == "quick" else "20000"))
     signal.signal(signal.SIGALRM, on_alarm)
-    signal.alarm(int(os.environ.get("VERIF_TIMEOUT", "1500" if tier == "quick" else "20000")))
+    signal.alarm(limit)
+    # belt and braces: a timer thread (runs whatever the main thread is blocked in)
+    import threading
+    t = threading.Timer(limit + 5, lambda: on_alarm(None, None))
+    t.daemon = True
+    t.start()
 
 
 def main():
